@@ -134,3 +134,8 @@ CASES['push-linger0-close-discards'] = [
     ('sock', 'push', 'PUSH'), ('opt', 'push', 'LINGER', 0), ('connect', 'push', 'A'), ('send', 'push', T('lost'), True), ('close', 'push'),
     ('sock', 'pull', 'PULL'), ('bind', 'pull', 'A'), ('settle',), ('settle',), ('drain', 'pull'),
 ]
+
+CASES['push-linger0-close-after-linger-delivers'] = [   # what ZMQReceiver.destroy() relies on: send, explicit linger pause, close
+    ('sock', 'pull', 'PULL'), ('bind', 'pull', 'A'), ('sock', 'push', 'PUSH'), ('opt', 'push', 'LINGER', 0), ('connect', 'push', 'A'), ('settle',),
+    ('send', 'push', T('exit-msg'), True), ('settle',), ('close', 'push'), ('settle',), ('drain', 'pull'),
+]
